@@ -1,0 +1,141 @@
+//go:build verif
+
+package slog
+
+import (
+	logslog "log/slog"
+	"time"
+)
+
+var _ time.Time
+
+// Contracts for property C15 (log/slog handler and std log bridge). Read by /verif/bin/lvc; never
+// compiled into a normal build. See /verif/DESIGN.md.
+
+// The package initializer establishes the package invariants (INV-glob - the default writer set and the
+// default logger exist - is established by the init function it runs through sync.Once, and checked there).
+// The conversion tables are what the package initializer makes them (and nothing writes them afterwards:
+// they are protected components, see DESIGN 10.1).
+//@ func init
+//@   props C15
+//@   assigns everything
+//@   maypanic
+//@   skipinvariant INV-glob
+//@   ensures [C15.namesake] has(mLogSlogLevelToLevel, logslog.LevelDebug) && mLogSlogLevelToLevel[logslog.LevelDebug] == DebugLevel && has(mLogSlogLevelToLevel, logslog.LevelInfo) && mLogSlogLevelToLevel[logslog.LevelInfo] == InfoLevel && has(mLogSlogLevelToLevel, logslog.LevelWarn) && mLogSlogLevelToLevel[logslog.LevelWarn] == WarnLevel && has(mLogSlogLevelToLevel, logslog.LevelError) && mLogSlogLevelToLevel[logslog.LevelError] == ErrorLevel
+//@   ensures [C15.table-only] forall(k, implies(has(mLogSlogLevelToLevel, k), k == -4 || k == 0 || k == 4 || k == 8))
+
+// The log/slog level table: the four standard levels map to their namesakes and nothing else is in it
+// (established by the package initializer, never written afterwards).
+//@ invariant [INV-slogmap] mLogSlogLevelToLevel != nil && has(mLogSlogLevelToLevel, logslog.LevelDebug) && mLogSlogLevelToLevel[logslog.LevelDebug] == DebugLevel && has(mLogSlogLevelToLevel, logslog.LevelInfo) && mLogSlogLevelToLevel[logslog.LevelInfo] == InfoLevel && has(mLogSlogLevelToLevel, logslog.LevelWarn) && mLogSlogLevelToLevel[logslog.LevelWarn] == WarnLevel && has(mLogSlogLevelToLevel, logslog.LevelError) && mLogSlogLevelToLevel[logslog.LevelError] == ErrorLevel && forall(k, implies(has(mLogSlogLevelToLevel, k), k == -4 || k == 0 || k == 4 || k == 8))
+
+// specSlogLevel: the severity a log/slog level is logged at by the handler (the four standard levels map to
+// their namesakes, anything else is printed at AlwaysLevel - never a terminating severity).
+func specSlogLevel(l logslog.Level) Level {
+	if v, ok := mLogSlogLevelToLevel[l]; ok {
+		return v
+	}
+	return AlwaysLevel
+}
+
+//@ func convertLogSlogLevel
+//@   props C15
+//@   ensures [C15.level] result == specSlogLevel(lvl)
+//@   ensures [C15.namesake] implies(lvl == logslog.LevelDebug, result == DebugLevel) && implies(lvl == logslog.LevelInfo, result == InfoLevel) && implies(lvl == logslog.LevelWarn, result == WarnLevel) && implies(lvl == logslog.LevelError, result == ErrorLevel)
+//@   ensures [C15.nonterminating] result != PanicLevel && result != FatalLevel
+
+//@ func logsloglevel2Level
+//@   props C15
+//@   inline
+//@   ensures [C15.namesake] implies(level == logslog.LevelDebug, result == DebugLevel) && implies(level == logslog.LevelInfo, result == InfoLevel) && implies(level == logslog.LevelWarn, result == WarnLevel) && implies(level == logslog.LevelError, result == ErrorLevel)
+//@   ensures [C15.nonterminating] implies(result == FatalLevel, level == LevelFatal) && implies(result == PanicLevel, level == LevelPanic)
+
+//@ func (*handler4LogSlog).Enabled
+//@   props C15
+//@   auto
+//@   requires !isnil(s.Logger)
+//@   at call (Logger).EnabledContext assert [C15.gate-forward] callee.self == s.Logger && callee.ctx == ctx && has(mLogSlogLevelToLevel, lvl) && callee.requestingLevel == mLogSlogLevelToLevel[lvl]
+//@   ensures [C15.gate] implies(has(mLogSlogLevelToLevel, lvl), result == ghost.ioGate) && implies(!has(mLogSlogLevelToLevel, lvl), result)
+
+// ---- derived handlers (hand-written)
+
+// withFields: the derived handler logs through a logger that keeps the destination, format and level of
+// the receiver's logger and carries the given fields. (KNOWN FINDING on the unchanged tree: the derived
+// logger is a detached New() - see /verif/known_findings.txt.)
+//@ func (*handler4LogSlog).withFields
+//@   props C15
+//@   dispatch Logger
+//@   assigns everything
+//@   maypanic
+//@   keeps Entry.name, Entry.owner, Entry.useJSON, Entry.useColor, Entry.timeLayout, Entry.modeUTC, Entry.level, Entry.attrs, Entry.writer, Entry.valueStringer, Entry.handlerOpt, Entry.extraFrames, Entry.contextKeys, dualWriter.*
+//@   requires s != nil && typeis(s.Logger, *Entry) && dyn(s.Logger, *Entry) != nil && specFmtInv(dyn(s.Logger, *Entry))
+//@   ensures [C15.derive-fresh] result != nil && fresh(result) && typeis(result.Logger, *Entry) && dyn(result.Logger, *Entry) != nil && fresh(dyn(result.Logger, *Entry))
+//@   ensures [C15.derive-level] dyn(result.Logger, *Entry).level == old(dyn(s.Logger, *Entry).level)
+//@   ensures [C15.derive-format] dyn(result.Logger, *Entry).useJSON == old(dyn(s.Logger, *Entry).useJSON) && dyn(result.Logger, *Entry).useColor == old(dyn(s.Logger, *Entry).useColor)
+//@   ensures [C15.derive-destination] forall(l, specDest(dyn(result.Logger, *Entry), Level(l)) == old(specDest(dyn(s.Logger, *Entry), Level(l))))
+//@   ensures [C15.derive-fields] len(dyn(result.Logger, *Entry).attrs) == len(fields)
+
+//@ func (*handler4LogSlog).WithAttrs
+//@   props C15
+//@   assigns everything
+//@   maypanic
+//@   requires s != nil && typeis(s.Logger, *Entry) && dyn(s.Logger, *Entry) != nil && specFmtInv(dyn(s.Logger, *Entry))
+//@   loop 1 invariant len(fields) == len(attrs)
+//@   at call (*handler4LogSlog).withFields assert [C15.derive-attrs] callee.s == s && len(callee.fields) == len(attrs)
+//@   at call convertAttrToField assert [C15.derive-convert] 0 <= rangeindex && rangeindex < len(attrs) && callee.attr.Key == attrs[rangeindex].Key && callee.attr.Value.num == attrs[rangeindex].Value.num && ident(callee.attr.Value.any) == ident(attrs[rangeindex].Value.any)
+
+//@ func (*handler4LogSlog).WithGroup
+//@   props C15
+//@   assigns everything
+//@   maypanic
+//@   requires s != nil && typeis(s.Logger, *Entry) && dyn(s.Logger, *Entry) != nil && specFmtInv(dyn(s.Logger, *Entry))
+//@   at call Group assert [C15.derive-group] callee.key == name && len(callee.args) == 0
+//@   at call (*handler4LogSlog).withFields assert [C15.derive-group-field] callee.s == s && len(callee.fields) == 1
+
+// NewLogLogger: the bridge writer logs through h at severity lvl and captures the caller
+//@ func NewLogLogger
+//@   props C15
+//@   assigns everything
+//@   maypanic
+//@   at call log.New assert [C15.bridge-new] typeis(callee.out, *handlerWriter) && dyn(callee.out, *handlerWriter) != nil && dyn(callee.out, *handlerWriter).l == h && dyn(callee.out, *handlerWriter).lvl == lvl && dyn(callee.out, *handlerWriter).capturePC && dyn(callee.out, *handlerWriter).extraFrames == 0 && callee.prefix == "" && callee.flag == 0
+
+// ---- generated by /verif/tools/gen_c15.py
+
+// convertAttrToField: one clause per log/slog value kind: the key is kept and the value is the one the
+// kind's accessor returns, with its Go type. Groups convert their members (same count, same order, each
+// through convertAttrToField), LogValuers are resolved first (Resolve never yields a LogValuer).
+//@ func convertAttrToField
+//@   props C15
+//@   assigns everything
+//@   maypanic
+//@   keeps Entry.*, dualWriter.*, map[string]*Entry, handler4LogSlog.Logger
+//@   ensures [C15.kind-bool] implies(old(uf("slog.kind", attr.Value.num, ident(attr.Value.any))) == logslog.KindBool, typeis(result, *kvp) && dyn(result, *kvp) != nil && dyn(result, *kvp).key == attr.Key && typeis(dyn(result, *kvp).val, bool) && dyn(dyn(result, *kvp).val, bool) == old((uf("slog.bool", attr.Value.num, ident(attr.Value.any)) != 0)))
+//@   ensures [C15.kind-duration] implies(old(uf("slog.kind", attr.Value.num, ident(attr.Value.any))) == logslog.KindDuration, typeis(result, *kvp) && dyn(result, *kvp) != nil && dyn(result, *kvp).key == attr.Key && typeis(dyn(result, *kvp).val, time.Duration) && dyn(dyn(result, *kvp).val, time.Duration) == old(uf("slog.duration", attr.Value.num, ident(attr.Value.any))))
+//@   ensures [C15.kind-float64] implies(old(uf("slog.kind", attr.Value.num, ident(attr.Value.any))) == logslog.KindFloat64, typeis(result, *kvp) && dyn(result, *kvp) != nil && dyn(result, *kvp).key == attr.Key && typeis(dyn(result, *kvp).val, float64) && ident(dyn(dyn(result, *kvp).val, float64)) == old(uf("slog.float64", attr.Value.num, ident(attr.Value.any))))
+//@   ensures [C15.kind-int64] implies(old(uf("slog.kind", attr.Value.num, ident(attr.Value.any))) == logslog.KindInt64, typeis(result, *kvp) && dyn(result, *kvp) != nil && dyn(result, *kvp).key == attr.Key && typeis(dyn(result, *kvp).val, int64) && dyn(dyn(result, *kvp).val, int64) == old(uf("slog.int64", attr.Value.num, ident(attr.Value.any))))
+//@   ensures [C15.kind-uint64] implies(old(uf("slog.kind", attr.Value.num, ident(attr.Value.any))) == logslog.KindUint64, typeis(result, *kvp) && dyn(result, *kvp) != nil && dyn(result, *kvp).key == attr.Key && typeis(dyn(result, *kvp).val, uint64) && dyn(dyn(result, *kvp).val, uint64) == old(uf("slog.uint64", attr.Value.num, ident(attr.Value.any))))
+//@   ensures [C15.kind-string] implies(old(uf("slog.kind", attr.Value.num, ident(attr.Value.any))) == logslog.KindString, typeis(result, *kvp) && dyn(result, *kvp) != nil && dyn(result, *kvp).key == attr.Key && typeis(dyn(result, *kvp).val, string) && contentid(dyn(dyn(result, *kvp).val, string)) == old(uf("slog.string", attr.Value.num, ident(attr.Value.any))))
+//@   ensures [C15.kind-time] implies(old(uf("slog.kind", attr.Value.num, ident(attr.Value.any))) == logslog.KindTime, typeis(result, *kvp) && dyn(result, *kvp) != nil && dyn(result, *kvp).key == attr.Key && typeis(dyn(result, *kvp).val, time.Time) && dyn(dyn(result, *kvp).val, time.Time) == ghost.ioTime)
+//@   ensures [C15.kind-any] implies(old(uf("slog.kind", attr.Value.num, ident(attr.Value.any))) != logslog.KindBool && old(uf("slog.kind", attr.Value.num, ident(attr.Value.any))) != logslog.KindTime && old(uf("slog.kind", attr.Value.num, ident(attr.Value.any))) != logslog.KindDuration && old(uf("slog.kind", attr.Value.num, ident(attr.Value.any))) != logslog.KindFloat64 && old(uf("slog.kind", attr.Value.num, ident(attr.Value.any))) != logslog.KindInt64 && old(uf("slog.kind", attr.Value.num, ident(attr.Value.any))) != logslog.KindString && old(uf("slog.kind", attr.Value.num, ident(attr.Value.any))) != logslog.KindUint64 && old(uf("slog.kind", attr.Value.num, ident(attr.Value.any))) != logslog.KindGroup && old(uf("slog.kind", attr.Value.num, ident(attr.Value.any))) != logslog.KindLogValuer, typeis(result, *kvp) && dyn(result, *kvp) != nil && dyn(result, *kvp).key == attr.Key && ident(dyn(result, *kvp).val) == old(uf("slog.any", attr.Value.num, ident(attr.Value.any))))
+//@   ensures [C15.kind-group] implies(old(uf("slog.kind", attr.Value.num, ident(attr.Value.any))) == logslog.KindGroup, typeis(result, *gkvp) && dyn(result, *gkvp) != nil && dyn(result, *gkvp).key == attr.Key)
+//@   at call convertGroupToFields assert [C15.group-members] ident(callee.attrs) == ghost.ioGrp
+//@   at call Group assert [C15.group-build] callee.key == attr.Key && len(callee.args) == 1 && typeis(callee.args[0], Attrs) && ident(dyn(callee.args[0], Attrs)) == ghost.ioFields
+//@   at call convertAttrToField assert [C15.resolve] callee.attr.Key == attr.Key && callee.attr.Value.num == ghost.ioResNum && ident(callee.attr.Value.any) == ghost.ioResAny && uf("slog.kind", callee.attr.Value.num, ident(callee.attr.Value.any)) != logslog.KindLogValuer
+
+// Group(key, members): a group attribute under that key (its member list is built by argsToAttrs)
+//@ func Group
+//@   props C15
+//@   assigns everything
+//@   maypanic
+//@   keeps Entry.*, dualWriter.*, map[string]*Entry, handler4LogSlog.Logger
+//@   ensures [C15.group] typeis(result, *gkvp) && dyn(result, *gkvp) != nil && dyn(result, *gkvp).key == key
+
+//@ func convertGroupToFields
+//@   props C15
+//@   assigns everything
+//@   maypanic
+//@   keeps Entry.*, dualWriter.*, map[string]*Entry, handler4LogSlog.Logger
+//@   posteffect ghost.ioFields = ident(ret)
+//@   ensures [C15.members] len(ret) == len(attrs)
+//@   loop 1 invariant len(ret) == rangeindex + 1 && rangeindex < len(attrs)
+//@   at call convertAttrToField assert [C15.member] 0 <= rangeindex && rangeindex < len(attrs)
+
